@@ -90,10 +90,10 @@ PROPS = {
         "assumptions": [STUBS, "grammar oracle parse_datagram enumerates the finitely many layouts of the fixed-size kit format"],
         "harnesses": [
             H("c07_send_pb_12", cost=60), H("c07_send_pb_13", cost=60), H("c07_send_pb_17", cost=75), H("c07_send_pb_22", cost=130), H("c07_send_feed_17", cost=80),
-            H("c07_send_bare_10", cost=25), H("c07_send_bcast_15", cost=25), H("d_ping", cost=80), H("e4_message_gates_smt", engine="smt", group="gates", cost=80, entry="Message::{needs_piggyback, allow_custom_broadcasts, piggyback_only_active} (MIR -> SMT-LIB2, z3 + cvc5)", bounds="all 11 message kinds; 6 queries x 2 solvers"),
+            H("c07_send_bare_10", cost=25), H("c07_send_bcast_15", cost=25), H("c07_send_feed_fail_first", cost=90, bounds="Feed, 2 members, the first encode_member fails after writing 0..=3 stray bytes"), H("d_ping", cost=80), H("e4_message_gates_smt", engine="smt", group="gates", cost=80, entry="Message::{needs_piggyback, allow_custom_broadcasts, piggyback_only_active} (MIR -> SMT-LIB2, z3 + cvc5)", bounds="all 11 message kinds; 6 queries x 2 solvers"),
             H("c07_send_pb_9", tier=T), H("c07_send_pb_10", tier=T), H("c07_send_pb_16", tier=T), H("c07_send_pb_21", tier=T),
             H("c07_send_pb_27", tier=T, cost=200), H("c07_send_pb_32", tier=T, cost=300), H("c07_send_feed_12", tier=T), H("c07_send_feed_22", tier=T, cost=200),
-            H("c07_send_feed_32", tier=T, cost=300), H("c07_send_feed_failing", tier=T, cost=600, timeout_t=1800), H("c07_send_bare_32", tier=T),
+            H("c07_send_feed_32", tier=T, cost=300), H("c07_send_feed_failing", tier=T, cost=600, timeout_t=1800), H("c07_send_feed_fail_second", tier=T, cost=100), H("c07_send_bare_32", tier=T),
             H("c07_send_bcast_14", tier=T), H("c07_send_bcast_32", tier=T), H("d_gossip_custom", tier=T), 
             H("c17_announce_payload", tier=T),
         ],
@@ -225,13 +225,14 @@ PROPS = {
     "C20": {
         "level": "model_checking",
         "technique": "Kani/CBMC bounded model checking of the bundled postcard/bincode codecs through the public Codec trait (round-trip, short buffers, arbitrary bytes; reference encoding for bincode)",
-        "owns": ["C20", "C06"],
+        "owns": ["C20", "C06", "C07"],
         "bounds": "identity type SId{u8,u8}; every Message variant (one harness each), all incarnations/probe numbers; postcard: monolithic round-trip with one trailing byte, every buffer limit 0..=6, arbitrary byte strings <= 8 (member) / <= 12 (header); bincode: encode == reference encoding, decode(reference) == value, short buffers, arbitrary <= 6 bytes",
-        "outside": "identities owning heap data (String/Vec); inputs > 12 bytes; the mid-feed clause is decided in C07 (c07_send_feed_failing)",
+        "outside": "identities owning heap data (String/Vec); inputs > 12 bytes; bincode *header* round-trips (5 thorough-tier harnesses) exceed 24 GB and are reported undecided - for bincode only the member encoding is decided (against the reference encoding), its header encoding is not; the mid-feed clause is decided in C07 (c07_send_feed_failing)",
         "assumptions": ["alloc::fmt::format stubbed to an empty string (error formatting has no effect on control flow)"],
         "harnesses": [
             H("c20_pc_member_roundtrip", cost=30, **CD), H("c20_pc_header_pingreq", cost=60, **CD), H("c20_pc_member_short_buffer", cost=60, **CD),
             H("c20_pc_member_arbitrary_bytes", cost=60, **CD), H("c20_bc_member_encode_matches_reference", cost=90, **CD), H("c20_bc_member_arbitrary_bytes", cost=100, **CD), H("c20_bc_member_limit_3", cost=20, **CD), H("c20_bc_member_limit_0", cost=20, **CD),
+            H("c07_send_feed_fail_second", cost=100, entry="Foca::send_message(Feed) with a codec failing mid-feed", bounds="2 members, the second encode_member fails after writing 0..=3 stray bytes"),
         ] + [H("c20_pc_header_" + v, tier=T, cost=60, **CD) for v in ["ping", "ack", "indirect_ping", "indirect_ack", "fwd_ack", "announce", "feed", "gossip", "broadcast", "turn_undead"]]
           + [H("c20_bc_header_" + v, tier=T, cost=200, timeout_t=1800, **CD) for v in ["ping", "pingreq", "fwd_ack", "announce", "turn_undead"]]
           + [H("c20_pc_header_arbitrary_bytes", tier=T, cost=200, **CD), H("c20_bc_member_short_buffer", tier=T, cost=300, **CD), H("c20_bc_member_limit_5", tier=T, cost=900, timeout_t=1800, **CD), H("c20_bc_member_decode_reference", tier=T, cost=600, timeout_t=1800, mem_gb=44, **CD),
@@ -239,7 +240,7 @@ PROPS = {
     },
 }
 
-DEV = ["d_ack_custom2","d_fwd_ack_2","c06_timer_crafted_suspect"]
+DEV = ["c07_send_feed_fail_first","c07_send_feed_fail_second","c16_broadcast_empty"]
 PROPS["DEV"] = {"level": "model_checking", "harnesses": [H(n, engine=("bcast" if n.startswith("bc_") else "codec" if n.startswith("c20_") or n.startswith("c06_config") else "incrate")) for n in DEV]}
 
 HOOK_COMMITS = ["2dd5aa0"]
